@@ -32,6 +32,26 @@ CHECKS = [
   'technique': 'exhaustive truth-table evaluation of the extracted status filter + information-flow (dependency set) argument on MIR',
   'text': 'Two necessary conditions: the status filter guarding the height-map insertion, extracted from MIR and evaluated over all 256 status-bit assignments, admits only records with HAVE_DATA and without FAILED bits (and admits validated stored blocks); and the record kept per height must depend on prev-hash linkage — the checker computes the dependency set and collision policy of the insertion and reports that no chain walk exists. The second is a genuine defect of the pinned tree and is listed as an open known finding with a semantic key.',
   'note': TB + 'Core status-bit meaning (chain.h) and LevelDB key order trusted. The open finding C04.select is reported as KNOWN-FINDING; any other policy/dependency set is a new violation.'},
+ {'id': 'C03', 'design_ref': 'DESIGN.md §3 C03',
+  'technique': 'MIR provenance/order analysis (dominance-ordered reads, guard sets, absolute-seek check)',
+  'text': 'Decides the structural causes of layout independence: record key filter and field order of the index record (i-th VarInt -> field), the VarInt kernel, the height -> (file number, offset) flow into the file lookup and the read without narrowing, the absolute seek to offset-4 before the size and block reads on the opened reader, and the blk-file name -> number map. A swapped field or a relative seek is a fact about operands, valid for every layout.',
+  'note': TB + 'LevelDB iteration and seek_bufread internals trusted; C03.varint is an idiom match.'},
+ {'id': 'C09', 'design_ref': 'DESIGN.md §3 C09',
+  'technique': 'MIR must-pass-through (gate), edge-polarity extraction of the three comparisons, constant table check',
+  'text': 'Decides that every verify=true path to a delivered block passes the chain-verify call with its error propagated, that each of the three comparisons returns Err exactly on the not-equal edge, that merkle leaves/prev-hash oracle/genesis constants have the required provenance and published values, and that a failing fetch exits non-zero without completing. Comparison polarity and gate paths hold for every corruption position.',
+  'note': TB + 'utils::merkle_root arithmetic is value-level and NOT decided (one unit test covers a 6-leaf tree).'},
+ {'id': 'C11', 'design_ref': 'DESIGN.md §3 C11',
+  'technique': 'MIR store/index-expression analysis of XorReader (position bookkeeping) + type-level layer count',
+  'text': 'Decides that the key byte applied to every byte read is key[(i + position_before_read) % len], that the position is the value returned by the inner seek and advances by exactly n after each read on every path, and that exactly one XOR layer with the one key from xor.dat wraps each freshly opened blk file. This makes the key index a function of the absolute file offset for every seek pattern and key length.',
+  'note': TB + 'seek_bufread returning the absolute logical position on SeekFrom::Start is trusted (read while designing).'},
+ {'id': 'C12', 'design_ref': 'DESIGN.md §3 C12',
+  'technique': 'wire-grammar extraction from MIR reader bodies (ordered reads with bound CompactSize) + dominating-guard check + constant table',
+  'text': 'Decides the activation table, the exact guard of the AuxPoW section read (Some(v) and v <= header.version), the section grammar tx,h32,branch,branch,header with branch = count, count x h32, u32le, and that the block hash / tx list / outputs do not depend on the section. Holds for all branch lengths and versions because the grammar term is independent of values.',
+  'note': TB + 'Merged-mining spec layout trusted; tx and header non-terminals are decided under C01.wire.'},
+ {'id': 'C17', 'design_ref': 'DESIGN.md §3 C17',
+  'technique': 'who-may-write/who-may-call on the handle field + must-pass-through of the close decision + fold-kind extraction',
+  'text': 'Decides that the handle is opened only lazily in read_block and dropped only in close, that every successful fetch passes the decision height >= highest height stored in that file and closes that same map entry on the true edge, and that the threshold table is a max-fold keyed by the record\'s own file over the untrimmed index. With ascending delivery this bounds open files by the files still holding a future height, for every layout.',
+  'note': TB + 'OS descriptor release on drop trusted; relies on C02.asc.'},
 ]
 
 NOT_APPLICABLE = []
